@@ -7,7 +7,8 @@
  * model variant, is ignored here: this is the real code).
  *
  * What the driver does per op (one library call each):
- *   S  coap_pdu_init(type, GET, mid) + 2-byte token, public coap_send()
+ *   S  coap_pdu_init(type, GET (client session) | 2.05 (server-side session), mid) + 2-byte token,
+ *      public coap_send()
  *   A/R  a 4-byte empty ACK / RST datagram through the real receive path (vn_inject_session)
  *   P  a NON 2.05 response carrying the token (separate response -> cancel by token); an optional
  *      third field is the peer's own message id (default: a counter from 0x8001) - it may collide
@@ -35,7 +36,9 @@
 #define MAXS 8
 static coap_context_t *ctx;
 static coap_session_t *sess[MAXS];
-static int nsess, dead[MAXS];
+static int nsess, dead[MAXS], is_server[MAXS];
+static coap_endpoint_t *srv_ep;
+static coap_address_t peer_addr[MAXS];
 static int recording;
 static char items[1 << 16];
 static size_t ilen;
@@ -117,6 +120,19 @@ static int ns_prng(void *buf, size_t len) {
   return vn_prng_fn(buf, len);
 }
 
+static void on_get(coap_resource_t *r, coap_session_t *s, const coap_pdu_t *req,
+                   const coap_string_t *q, coap_pdu_t *resp) {
+  (void)r; (void)s; (void)req; (void)q;
+  coap_pdu_set_code(resp, COAP_RESPONSE_CODE_CONTENT);
+}
+
+/* deliver a datagram from the session's peer: client session -> its own socket, server-side
+ * session -> the endpoint's socket with the peer's source address */
+static void inject(int sid, const uint8_t *d, size_t n) {
+  if (is_server[sid]) vn_inject_ep(ctx, srv_ep, &peer_addr[sid], NULL, d, n);
+  else vn_inject_session(ctx, sess[sid], d, n);
+}
+
 static void fire_timer(coap_session_t *s, int mid) {
   coap_queue_t *node = NULL;
   coap_lock_lock(ctx, return);
@@ -146,13 +162,33 @@ static void do_case(void) {
   if (!ctx) { puts("ERROR no context"); return; }
   coap_register_nack_handler(ctx, on_nack);
   coap_register_response_handler(ctx, on_resp);
+  srv_ep = NULL;
   for (int k = 0; k < nsess; k++) {
     int nstart = 1, maxrt = 4, est0 = 1, udp = 1;
+    char kind = 'c';
     coap_address_t a;
-    sscanf(vtok[3 + k], "%d,%d,%d,%d", &nstart, &maxrt, &est0, &udp);
-    vn_addr4(&a, VN_LOOPBACK, (uint16_t)(6000 + k));
-    sess[k] = vn_new_client(ctx, &a);
+    sscanf(vtok[3 + k], "%d,%d,%d,%d,%c", &nstart, &maxrt, &est0, &udp, &kind);
     dead[k] = 0;
+    is_server[k] = kind == 's';
+    if (!is_server[k]) {
+      vn_addr4(&a, VN_LOOPBACK, (uint16_t)(6000 + k));
+      sess[k] = vn_new_client(ctx, &a);
+    } else {
+      /* server-side session: created by the library for a first datagram from a new peer (an
+       * empty ACK nobody waits for: no reply); the context gets an endpoint and a resource */
+      static const uint8_t hello[4] = {0x60, 0x00, 0xff, 0xfe};
+      if (!srv_ep) {
+        coap_resource_t *r = coap_resource_init(coap_make_str_const("r"), 0);
+        coap_register_request_handler(r, COAP_REQUEST_GET, on_get);
+        coap_add_resource(ctx, r);
+        srv_ep = vn_new_server_ep(ctx);
+        if (!srv_ep) { puts("ERROR no endpoint"); return; }
+      }
+      vn_addr4(&peer_addr[k], 0x0a000001u + (uint32_t)k, (uint16_t)(40000 + k));
+      vn_inject_ep(ctx, srv_ep, &peer_addr[k], NULL, hello, sizeof(hello));
+      sess[k] = coap_session_get_by_peer(ctx, &peer_addr[k], 0);
+      if (sess[k]) coap_session_reference(sess[k]);
+    }
     if (!sess[k]) { puts("ERROR no session"); return; }
     coap_session_set_nstart(sess[k], (uint16_t)nstart);
     coap_session_set_max_retransmit(sess[k], (uint16_t)maxrt);
@@ -182,8 +218,10 @@ static void do_case(void) {
       switch (op[0]) {
       case 'S': {
         sscanf(comma + 1, "%c,%d,%d", &ty, &a, &b);
+        /* a client session sends requests, a server-side session responses / notifications */
         coap_pdu_t *p = coap_pdu_init(ty == 'c' ? COAP_MESSAGE_CON : COAP_MESSAGE_NON,
-                                      COAP_REQUEST_CODE_GET, (coap_mid_t)a, 64);
+                                      is_server[sid] ? COAP_RESPONSE_CODE_CONTENT
+                                      : COAP_REQUEST_CODE_GET, (coap_mid_t)a, 64);
         uint8_t tk[2] = {(uint8_t)(b >> 8), (uint8_t)b};
         coap_add_token(p, 2, tk);
         ret = coap_send(s, p) == COAP_INVALID_MID ? "X" : "A";
@@ -193,7 +231,7 @@ static void do_case(void) {
       case 'R': {
         a = atoi(comma + 1);
         uint8_t d[4] = {(uint8_t)(op[0] == 'A' ? 0x60 : 0x70), 0, (uint8_t)(a >> 8), (uint8_t)a};
-        if (!dead[sid]) vn_inject_session(ctx, s, d, 4);
+        if (!dead[sid]) inject(sid, d, 4);
         break;
       }
       case 'P': {
@@ -203,7 +241,7 @@ static void do_case(void) {
         else peer_mid++;
         uint8_t d[8] = {0x52, 0x45, (uint8_t)(peer_mid >> 8), (uint8_t)peer_mid,
                         (uint8_t)(a >> 8), (uint8_t)a, 0xff, 'x'};
-        if (!dead[sid]) vn_inject_session(ctx, s, d, 8);
+        if (!dead[sid]) inject(sid, d, 8);
         break;
       }
       case 'T':
@@ -221,7 +259,8 @@ static void do_case(void) {
         a = atoi(comma + 1);
         if (!dead[sid]) {
           coap_session_disconnected(s, (coap_nack_reason_t)a);
-          if (a != COAP_NACK_ICMP_ISSUE) dead[sid] = 1;
+          /* the disconnect closes a client session's socket; a server-side session goes on */
+          if (a != COAP_NACK_ICMP_ISSUE && !is_server[sid]) dead[sid] = 1;
         }
         break;
       default:
@@ -244,7 +283,7 @@ static void do_case(void) {
   printf("\n");
   recording = 0;
   for (int k = 0; k < nsess; k++) {
-    vn_unregister_client(sess[k]);
+    if (!is_server[k]) vn_unregister_client(sess[k]);
     coap_session_release(sess[k]);
     sess[k] = NULL;
   }
